@@ -5,7 +5,9 @@
              of every connection after every step, the chosen connection and the number of draws.
    spec_ok : the observed numbers satisfy the clauses of the property, without the Model. *)
 From Coq Require Import Floats Uint63.
-From God Require Import Base.Prelude C14.Model C14.Spec.
+From Coq Require Import String.
+From God Require Import Base.Prelude C14.Model C14.Spec C14.Client.
+From GodGen Require C14_Gen.
 Local Open Scope Z_scope.
 
 (* ---------- binary64 instance of the oracles ---------- *)
@@ -64,7 +66,7 @@ Record xobs := mkobs {
   o_stamp : Z
 }.
 
-Record case := mkcase {
+Record bcase := mkcase {
   c_n : nat;
   c_start : Z;
   c_order : list nat;       (* observed: ids of p.conns in order (iteration order of the ReadySCs map) *)
@@ -138,7 +140,7 @@ Definition errpicker_steps (steps : list (xop * xobs)) : bool :=
                      | XAdv _ => true
                      end) steps.
 
-Definition model_ok (c : case) : bool :=
+Definition bmodel_ok (c : bcase) : bool :=
   perm_ok (c_n c) (c_order c) &&
   match build (c_start c) (c_order c) with
   | None => errpicker_steps (c_steps c)
@@ -261,8 +263,66 @@ Fixpoint spec_steps (n : nat) (order : list nat) (t : sst) (steps : list (xop * 
       dump_clauses n t' dump && spec_steps n order t' r
   end.
 
-Definition spec_ok (c : case) : bool :=
+Definition bspec_ok (c : bcase) : bool :=
   let n := c_n c in
   spec_steps n (c_order c)
     (mksst (c_start c) (repeat init_row n) [] [] (repeat [] n) (repeat 0 n) (repeat 0 n) (repeat 0 n))
     (c_steps c).
+
+(* ================= client wiring cases (rpc/internal/client.go) ================= *)
+Inductive xcopt := XDial (tag : nat) | XNonBlock | XTimeout (ms : Z) | XCreds | XUnary | XStream.
+
+Record ccase := mkccase {
+  cc_backends : nat;            (* in-process grpc servers behind direct:///a,b[,c] *)
+  cc_opts : list xcopt;         (* the ClientOptions handed to NewClient, in order *)
+  cc_min_calls : Z;
+  cc_labels : list Z;           (* observed: the assembled dial options; tag of a user option, -2 the balancer's
+                                   service config, -1 any other *)
+  cc_dial_err : bool;           (* observed: NewClient failed *)
+  cc_svc : string;              (* observed: default service config JSON of the ClientConn *)
+  cc_balancer : string;         (* observed: name of the balancer the ClientConn runs *)
+  cc_counts : list Z;           (* observed: calls served per backend *)
+  cc_calls : Z;                 (* observed: calls issued *)
+  cc_errs : Z                   (* observed: calls that failed *)
+}.
+
+Definition to_copt (o : xcopt) : copt :=
+  match o with
+  | XDial t => WithDialOption (DUser t)
+  | XNonBlock => WithNonBlock
+  | XTimeout ms => WithTimeout (ms * 1000000)
+  | XCreds => WithTransportCredentials
+  | XUnary => WithUnaryClientInterceptor
+  | XStream => WithStreamClientInterceptor
+  end.
+
+Definition label_of (d : dialopt) : Z :=
+  match d with DSvcCfg _ => -2 | DUser t => Z.of_nat t | _ => -1 end.
+
+(* fmt.Sprintf(`{"loadBalancingPolicy":"%s"}`, p2c.Name)  (client.go:50) with the regenerated p2c.Name *)
+Definition svc_json (name : string) : string :=
+  ("{""loadBalancingPolicy"":""" ++ name ++ """}")%string.
+
+(* the option-list model reproduces number and order of the assembled dial options; the ClientConn carries
+   the service config NewClient formats and runs the balancer registered under that name *)
+Definition cmodel_ok (c : ccase) : bool :=
+  let ds := new_client_dial_options C14_Gen.Name (map to_copt (cc_opts c)) in
+  Zlist_eqb (map label_of ds) (cc_labels c) &&
+  negb (cc_dial_err c) &&
+  String.eqb (cc_svc c) (svc_json C14_Gen.Name) &&
+  match effective_policy ds with Some p => String.eqb (cc_balancer c) p | None => false end &&
+  Nat.eqb (List.length (cc_counts c)) (cc_backends c) &&
+  (cc_min_calls c <=? cc_calls c).
+
+(* the property, on the observations alone: the client runs the P2C balancer (the name p2c registers under,
+   regenerated from p2c.go) and, under sustained calls, every ready backend is picked *)
+Definition cspec_ok (c : ccase) : bool :=
+  negb (cc_dial_err c) &&
+  existsb (Z.eqb (-2)) (cc_labels c) &&
+  String.eqb (cc_balancer c) C14_Gen.Name &&
+  Nat.eqb (List.length (cc_counts c)) (cc_backends c) &&
+  forallb (fun n => 0 <? n) (cc_counts c).
+
+Inductive case := CB (b : bcase) | CC (c : ccase).
+Definition model_ok (c : case) : bool := match c with CB b => bmodel_ok b | CC c => cmodel_ok c end.
+Definition spec_ok (c : case) : bool := match c with CB b => bspec_ok b | CC c => cspec_ok c end.
